@@ -693,3 +693,48 @@ Qed.
 
 Theorem get_d_zero f : m_size f = 0 -> mpf_get_d f = Ok DZero.
 Proof. intro N. unfold mpf_get_d. rewrite N. reflexivity. Qed.
+
+(* ---------------------------------------------------------------- the complex layer is the real one, component by component *)
+Theorem get_cdpe_components c : wf_mpf (fst c) = true -> wf_mpf (snd c) = true -> exp_ok (fst c) -> exp_ok (snd c) ->
+  exists r1 r2,
+    mpc_get_cdpe c = Ok ((r1, r2), c, [0; m_exp (fst c); 0; m_exp (snd c)]) /\
+    mpf_get_rdpe (fst c) = Ok (r1, fst c, [0; m_exp (fst c)]) /\
+    mpf_get_rdpe (snd c) = Ok (r2, snd c, [0; m_exp (snd c)]).
+Proof.
+  intros W1 W2 X1 X2. destruct (get_rdpe_source _ W1 X1) as [r1 E1]. destruct (get_rdpe_source _ W2 X2) as [r2 E2].
+  exists r1, r2. split; [|split; assumption]. unfold mpc_get_cdpe. rewrite E1, E2. destruct c; reflexivity.
+Qed.
+
+Theorem set_cdpe_exact prec s1 m1 e1 l1 s2 m2 e2 l2 :
+  2 <= prec < 2 ^ 31 -> 0 < m1 < 2 ^ 53 -> LMIN < l1 <= LMAX -> 0 < m2 < 2 ^ 53 -> LMIN < l2 <= LMAX ->
+  exists f1 f2, mpc_set_cdpe prec ((DFin s1 m1 e1, l1), (DFin s2 m2 e2, l2)) = Ok (f1, f2) /\
+    set_exact f1 prec s1 m1 e1 l1 /\ set_exact f2 prec s2 m2 e2 l2.
+Proof.
+  intros Hp M1 L1 M2 L2.
+  destruct (set_2dl_exact prec s1 m1 e1 l1 Hp M1 L1) as (f1 & E1 & S1).
+  destruct (set_2dl_exact prec s2 m2 e2 l2 Hp M2 L2) as (f2 & E2 & S2).
+  exists f1, f2. split; [|split; assumption]. unfold mpc_set_cdpe, mpf_set_rdpe. cbn [fst snd]. rewrite E1, E2. reflexivity.
+Qed.
+
+Theorem get_cplx_components c :
+  wf_mpf (fst c) = true -> wf_mpf (snd c) = true -> m_size (fst c) <> 0 -> m_size (snd c) <> 0 ->
+  in_long ((m_exp (fst c) - m_n (fst c)) * 64) = true -> in_long ((m_exp (snd c) - m_n (snd c)) * 64) = true ->
+  exists d1 d2, mpc_get_cplx c = Ok (d1, d2) /\ mpf_get_d (fst c) = Ok d1 /\ mpf_get_d (snd c) = Ok d2 /\
+    get_d_spec (m_d (fst c)) ((m_exp (fst c) - m_n (fst c)) * 64) (m_neg (fst c)) d1 /\
+    get_d_spec (m_d (snd c)) ((m_exp (snd c) - m_n (snd c)) * 64) (m_neg (snd c)) d2.
+Proof.
+  intros W1 W2 N1 N2 L1 L2.
+  destruct (get_d_whole_range _ W1 N1 L1) as (d1 & E1 & S1 & _). destruct (get_d_whole_range _ W2 N2 L2) as (d2 & E2 & S2 & _).
+  exists d1, d2. unfold mpc_get_cplx. rewrite E1, E2.
+  split; [reflexivity|]. split; [reflexivity|]. split; [reflexivity|]. split; assumption.
+Qed.
+
+(* mpc_set_cplx / mpf_set_d: exact for every finite double *)
+Theorem set_cplx_exact prec s1 m1 e1 s2 m2 e2 : 2 <= prec < 2 ^ 31 -> 0 < m1 < 2 ^ 53 -> 0 < m2 < 2 ^ 53 ->
+  exists f1 f2, mpc_set_cplx prec (DFin s1 m1 e1, DFin s2 m2 e2) = Ok (f1, f2) /\
+    set_exact f1 prec s1 m1 e1 0 /\ set_exact f2 prec s2 m2 e2 0.
+Proof.
+  intros Hp M1 M2.
+  destruct (set_d_spec prec s1 m1 e1 Hp M1) as (f1 & E1 & _ & S1). destruct (set_d_spec prec s2 m2 e2 Hp M2) as (f2 & E2 & _ & S2).
+  exists f1, f2. unfold mpc_set_cplx. cbn [fst snd]. rewrite E1, E2. split; [reflexivity|]. split; assumption.
+Qed.
